@@ -14,7 +14,7 @@ def breakdown_cfg(rng: random.Random, tier: str) -> gen.GenCfg:
     return gen.GenCfg(
         n_ranks=rng.choice([1, 1, 2, 3, 4] if tier == "thorough" else [1, 1, 2]),
         n_steps=rng.choice([0, 1, 2, 3]),
-        streams=rng.choice([(7,), (7, 9), (7, 9, 13)]),
+        streams=rng.choice([(7,), (7, 9), (7, 9, 13), (0, 7), (0,)]),       # stream 0: the legacy default stream is a device stream too
         p_launch=rng.choice([0.5, 0.7, 0.9]), p_mem=rng.choice([0.1, 0.3]), p_comm=rng.choice([0.2, 0.5]),
         p_sync=rng.choice([0.0, 0.1]),
         kdur=rng.choice([(0, 1, 2, 3), (0, 1, 2, 3, 5, 8), (1, 4, 9, 20)]),
